@@ -112,22 +112,33 @@ def render(desc, lex=None, encoding="utf-8"):
         return basetypes[key]
 
     # ---- ECUs with ports ----
-    ecu_ports = {e["name"]: [] for e in desc["ecus"]}
+    # several clusters: every cluster has its own channel, triggerings and one connector per ECU; a frame shared between clusters is ONE
+    # CAN-FRAME (with its PDUs, I-SIGNALs, ...) triggered in each of them with the ports - senders and receivers - that cluster has
+    buses = [desc["frames"]] + [b["frames"] for b in desc.get("buses", [])]
+    cur = [0]
+    cname = lambda b: "CAN" if b == 0 else "CAN%d" % (b + 1)
+    conn = lambda b, ecu: ("Conn_%s" if b == 0 else "Conn%d_%%s" % (b + 1)) % ecu
+    ecu_ports = {(b, e["name"]): [] for b in range(len(buses)) for e in desc["ecus"]}
     port_n = [0]
+    emitted = set()
 
     def port(ecu, kind, direction):
         port_n[0] += 1
         name = "%s_%s_%d" % ({"FRAME-PORT": "FP", "I-PDU-PORT": "PP", "I-SIGNAL-PORT": "SP"}[kind], direction, port_n[0])
-        ecu_ports[ecu].append(E(kind, children=[sn(name), E("COMMUNICATION-DIRECTION", text=direction)]))
-        return "/Ecu/%s/Conn_%s/%s" % (ecu, ecu, name)
+        ecu_ports[(cur[0], ecu)].append(E(kind, children=[sn(name), E("COMMUNICATION-DIRECTION", text=direction)]))
+        return "/Ecu/%s/%s/%s" % (ecu, conn(cur[0], ecu), name)
 
-    frame_trigs, sig_trigs, pdu_trigs = [], [], []
+    trigs = {b: ([], [], []) for b in range(len(buses))}
     interval = [("INTERVAL-TYPE", "CLOSED")] if explicit else []
 
     def signal_elements(fr, sg, name):
         """I-SIGNAL, SYSTEM-SIGNAL, COMPU-METHOD, DATA-CONSTR for one described signal; returns the I-SIGNAL path"""
         ipath = "/ISignal/" + name
         spath = "/SysSignal/" + name + "_sys"
+        if ("sig", name) in emitted:
+            signal_triggering(fr, sg, name, ipath)
+            return ipath
+        emitted.add(("sig", name))
         props = {"isignal": [], "syssignal": []}
         props["isignal"].append(ref("BASE-TYPE-REF", "SW-BASE-TYPE", base_path(sg)))
         identity = sg["factor"] == 1 and sg["offset"] == 0 and not sg["values"]
@@ -188,15 +199,18 @@ def render(desc, lex=None, encoding="utf-8"):
         if props["syssignal"]:
             ss.add(E("PHYSICAL-PROPS", children=[ddp(props["syssignal"])]))
         pk["SysSignal"].append(ss)
-        # triggering with the receivers' signal ports
+        signal_triggering(fr, sg, name, ipath)
+        return ipath
+
+    def signal_triggering(fr, sg, name, ipath):
+        # triggering (one per cluster) with the receivers' signal ports
         prefs = [ref("I-SIGNAL-PORT-REF", "I-SIGNAL-PORT", port(r, "I-SIGNAL-PORT", "IN")) for r in sg["receivers"]]
         prefs += [ref("I-SIGNAL-PORT-REF", "I-SIGNAL-PORT", port(s, "I-SIGNAL-PORT", "OUT")) for s in fr["senders"]]
         st = E("I-SIGNAL-TRIGGERING", children=[sn("ST_" + name)])
         if prefs:
             st.add(E("I-SIGNAL-PORT-REFS", children=prefs))
         st.add(ref("I-SIGNAL-REF", "I-SIGNAL", ipath))
-        sig_trigs.append(st)
-        return ipath
+        trigs[cur[0]][1].append(st)
 
     def mapping(sg, name, ipath):
         return E("I-SIGNAL-TO-I-PDU-MAPPING", children=[
@@ -206,14 +220,21 @@ def render(desc, lex=None, encoding="utf-8"):
 
     def signal_pdu(pname, fr, sigs):
         maps = [mapping(sg, sg["name"], signal_elements(fr, sg, sg["name"])) for sg in sigs]
+        if ("pdu", pname) in emitted:
+            return "/Pdu/" + pname
+        emitted.add(("pdu", pname))
         p = E("I-SIGNAL-I-PDU", children=[sn(pname), E("LENGTH", text=str(fr["length"]))])
         if maps:
             p.add(E("I-SIGNAL-TO-PDU-MAPPINGS", children=maps))
         pk["Pdu"].append(p)
         return "/Pdu/" + pname
 
-    for fr in desc["frames"]:
+    for bidx, fr in [(b, f) for b, fs in enumerate(buses) for f in fs]:
+        cur[0] = bidx
+        frame_trigs, sig_trigs, pdu_trigs = trigs[bidx]
         fname = fr["name"]
+        first_time = ("frame", fname) not in emitted
+        emitted.add(("frame", fname))
         muxer = [s for s in fr["signals"] if s["mux"] and s["mux"]["role"] == "multiplexer"]
         if not muxer:
             pdu_path, pdu_dest = signal_pdu(fname + "_pdu", fr, fr["signals"]), "I-SIGNAL-I-PDU"
@@ -235,13 +256,15 @@ def render(desc, lex=None, encoding="utf-8"):
             if static:
                 sp = signal_pdu(fname + "_static", fr, static)
                 mp.add(E("STATIC-PARTS", children=[E("STATIC-PART", children=[ref("I-PDU-REF", "I-SIGNAL-I-PDU", sp)])]))
-            pk["Pdu"].append(mp)
+            if first_time:
+                pk["Pdu"].append(mp)
             pdu_path, pdu_dest = "/Pdu/" + fname + "_pdu", "MULTIPLEXED-I-PDU"
-        pk["Frame"].append(E("CAN-FRAME", children=[
-            sn(fname), desc_el(fr.get("comment")), E("FRAME-LENGTH", text=str(fr["length"])),
-            E("PDU-TO-FRAME-MAPPINGS", children=[E("PDU-TO-FRAME-MAPPING", children=[
-                sn("PM_" + fname), E("PACKING-BYTE-ORDER", text="MOST-SIGNIFICANT-BYTE-LAST"), ref("PDU-REF", pdu_dest, pdu_path),
-                E("START-POSITION", text="0")])])]))
+        if first_time:
+          pk["Frame"].append(E("CAN-FRAME", children=[
+              sn(fname), desc_el(fr.get("comment")), E("FRAME-LENGTH", text=str(fr["length"])),
+              E("PDU-TO-FRAME-MAPPINGS", children=[E("PDU-TO-FRAME-MAPPING", children=[
+                  sn("PM_" + fname), E("PACKING-BYTE-ORDER", text="MOST-SIGNIFICANT-BYTE-LAST"), ref("PDU-REF", pdu_dest, pdu_path),
+                  E("START-POSITION", text="0")])])]))
         receivers = sorted({r for s in fr["signals"] for r in s["receivers"]})
         fprefs = [ref("FRAME-PORT-REF", "FRAME-PORT", port(s, "FRAME-PORT", "OUT")) for s in fr["senders"]]
         fprefs += [ref("FRAME-PORT-REF", "FRAME-PORT", port(r, "FRAME-PORT", "IN")) for r in receivers]
@@ -257,7 +280,7 @@ def render(desc, lex=None, encoding="utf-8"):
             ft.add(E("FRAME-PORT-REFS", children=fprefs))
         ft.add(ref("FRAME-REF", "CAN-FRAME", "/Frame/" + fname))
         ft.add(E("PDU-TRIGGERINGS", children=[E("PDU-TRIGGERING-REF-CONDITIONAL", children=[
-            ref("PDU-TRIGGERING-REF", "PDU-TRIGGERING", "/Cluster/CAN/CH/PT_" + fname)])]))
+            ref("PDU-TRIGGERING-REF", "PDU-TRIGGERING", "/Cluster/%s/CH/PT_%s" % (cname(bidx), fname))])]))
         if fr["extended"]:
             ft.add(E("CAN-ADDRESSING-MODE", text="EXTENDED"))
         elif explicit:
@@ -270,16 +293,20 @@ def render(desc, lex=None, encoding="utf-8"):
         pk["Ecu"].append(E("ECU-INSTANCE", children=[
             sn(n), desc_el(e.get("comment")),
             E("CONNECTORS", children=[E("CAN-COMMUNICATION-CONNECTOR", children=[
-                sn("Conn_" + n), E("ECU-COMM-PORT-INSTANCES", children=ecu_ports[n]) if ecu_ports[n] else None])])]))
-    chan = E("CAN-PHYSICAL-CHANNEL", children=[
-        sn("CH"),
-        E("COMM-CONNECTORS", children=[E("COMMUNICATION-CONNECTOR-REF-CONDITIONAL", children=[
-            ref("COMMUNICATION-CONNECTOR-REF", "CAN-COMMUNICATION-CONNECTOR", "/Ecu/%s/Conn_%s" % (e["name"], e["name"]))]) for e in desc["ecus"]]),
-        E("FRAME-TRIGGERINGS", children=order(lx["order.elements"], frame_trigs)) if frame_trigs else None,
-        E("I-SIGNAL-TRIGGERINGS", children=order(lx["order.elements"], sig_trigs)) if sig_trigs else None,
-        E("PDU-TRIGGERINGS", children=order(lx["order.elements"], pdu_trigs)) if pdu_trigs else None])
-    pk["Cluster"].append(E("CAN-CLUSTER", children=[sn("CAN"), E("CAN-CLUSTER-VARIANTS", children=[E("CAN-CLUSTER-CONDITIONAL", children=[
-        E("BAUDRATE", text="500000"), E("PHYSICAL-CHANNELS", children=[chan]), E("PROTOCOL-NAME", text="CAN"), E("SPEED", text="500000")])])]))
+                sn(conn(b, n)), E("ECU-COMM-PORT-INSTANCES", children=ecu_ports[(b, n)]) if ecu_ports[(b, n)] else None])
+                for b in range(len(buses)) if (b == 0 or ecu_ports[(b, n)])])]))
+    for b in range(len(buses)):
+        frame_trigs, sig_trigs, pdu_trigs = trigs[b]
+        chan = E("CAN-PHYSICAL-CHANNEL", children=[
+            sn("CH"),
+            E("COMM-CONNECTORS", children=[E("COMMUNICATION-CONNECTOR-REF-CONDITIONAL", children=[
+                ref("COMMUNICATION-CONNECTOR-REF", "CAN-COMMUNICATION-CONNECTOR", "/Ecu/%s/%s" % (e["name"], conn(b, e["name"])))])
+                for e in desc["ecus"] if (b == 0 or ecu_ports[(b, e["name"])])]),
+            E("FRAME-TRIGGERINGS", children=order(lx["order.elements"], frame_trigs)) if frame_trigs else None,
+            E("I-SIGNAL-TRIGGERINGS", children=order(lx["order.elements"], sig_trigs)) if sig_trigs else None,
+            E("PDU-TRIGGERINGS", children=order(lx["order.elements"], pdu_trigs)) if pdu_trigs else None])
+        pk["Cluster"].append(E("CAN-CLUSTER", children=[sn(cname(b)), E("CAN-CLUSTER-VARIANTS", children=[E("CAN-CLUSTER-CONDITIONAL", children=[
+            E("BAUDRATE", text="500000"), E("PHYSICAL-CHANNELS", children=[chan]), E("PROTOCOL-NAME", text="CAN"), E("SPEED", text="500000")])])]))
 
     packages = []
     for name in ("Cluster", "Ecu", "Frame", "Pdu", "ISignal", "SysSignal", "Compu", "Unit", "BaseType", "Constr"):
